@@ -59,7 +59,7 @@ package scen
 //                                 the queue the wrapper is built on): every key
 //                                 that differs had an operation submitted after
 //                                 the restart stored in front of an older,
-//                                 persisted operation on it - c17BufReorderScan
+//                                 persisted operation on it - c17BufScan
 
 import (
 	"context"
@@ -318,12 +318,13 @@ func runC17BufferedX(s *sim.Sim, withRestart bool) {
 	}
 	// (buffered-restart) queue entries found on the datastore at the restart,
 	// and the keys for which an entry written after the restart is stored in
-	// front of one of them - see c17BufReorderScan
+	// front of one of them - see c17BufScan
 	var oldEntries map[string]bool
+	var scan *c17BufScan
 	reordered := map[int]bool{}
 	release := func() bool {
-		if oldEntries != nil {
-			c17BufReorderScan(h, oldEntries, reordered)
+		if scan != nil {
+			scan.run(h, reordered)
 		}
 		ps := s.ParkedKind("bufop")
 		if len(ps) == 0 {
@@ -383,6 +384,7 @@ func runC17BufferedX(s *sim.Sim, withRestart bool) {
 				oldEntries[k] = true
 			}
 		}
+		scan = &c17BufScan{old: oldEntries, fresh: map[string]bool{}, logIdx: h.ds.LogLen()}
 		if backlogAtRestart > 0 {
 			s.Count("probe_buf_restart_backlog")
 			if next >= len(ops) {
@@ -429,8 +431,8 @@ func runC17BufferedX(s *sim.Sim, withRestart bool) {
 			break
 		}
 		parked := len(s.ParkedKind("bufop")) > 0
-		if oldEntries != nil {
-			c17BufReorderScan(h, oldEntries, reordered)
+		if scan != nil {
+			scan.run(h, reordered)
 		}
 		if withRestart && !restarted && next >= restartAfter {
 			restarted = true
@@ -563,14 +565,18 @@ func runC17BufferedX(s *sim.Sim, withRestart bool) {
 			var want, is []string
 			onlyReordered := true
 			for _, k := range h.keys {
-				if ref[k.idx] != have[k.idx] && !reordered[k.idx] {
-					onlyReordered = false
-				}
 				if _, det := detKept[k.idx]; uncertain[k.idx] && !det {
 					if ref[k.idx] != have[k.idx] {
 						inflightLost = append(inflightLost, k.name)
 					}
 					continue
+				}
+				// (only the keys that are judged here decide the label: a key of the
+				// batch in execution at Close that differs as well is the other open
+				// finding, reported on its own below, and says nothing about why a
+				// judged key differs)
+				if ref[k.idx] != have[k.idx] && !reordered[k.idx] {
+					onlyReordered = false
 				}
 				if ref[k.idx] {
 					want = append(want, k.name)
@@ -580,7 +586,7 @@ func runC17BufferedX(s *sim.Sim, withRestart bool) {
 				}
 			}
 			if strings.Join(want, ",") != strings.Join(is, ",") && onlyReordered {
-				// label of the open finding buffered-restart-reorder (see c17BufReorderScan)
+				// label of the open finding buffered-restart-reorder (see c17BufScan)
 				h.violatePending("buffered-restart-reorder", "final keystore content {%s}; applying the %d operations one by one gives {%s}; for every key that differs, an operation submitted AFTER the restart was stored in the queue's datastore in front of an older operation on the same key that the previous run had persisted at Close (the new queue instance numbers its entries from zero again), and was executed before it (wrapper executed %s)", strings.Join(is, ","), len(ops), strings.Join(want, ","), c17Batches(gates))
 			} else if strings.Join(want, ",") != strings.Join(is, ",") {
 				s.Violate("buffered-keystore", "final keystore content {%s}; applying the %d operations one by one gives {%s} (wrapper executed %s)", strings.Join(is, ","), len(ops), strings.Join(want, ","), c17Batches(gates))
@@ -732,22 +738,41 @@ func (h *c17H) pickKeysMax(label string, maxN int) []*c17Key {
 	return out
 }
 
-// c17BufReorderScan looks at the wrapper's queue on the datastore (label of
-// the open finding buffered-restart-reorder; decides nothing). The queue is
-// read back in datastore key order. old holds the entries the previous run
-// persisted at Close; when an entry written after the restart sorts in front
-// of one of them and both carry an operation on the same key, the key is
-// marked: the newer operation will be executed before the older one.
-func c17BufReorderScan(h *c17H, old map[string]bool, out map[int]bool) {
-	var olds, news []string
-	for k := range h.ds.Snapshot() {
-		if !strings.HasPrefix(k, "/buf/dsq-") {
+// c17BufScan follows the wrapper's queue on the datastore after the restart
+// (label of the open finding buffered-restart-reorder; decides nothing). The
+// queue is read back in datastore key order. old holds the entries the
+// previous run persisted at Close that are still stored; fresh the stored
+// entries written after the restart. When a fresh entry sorts in front of an
+// old one and both carry an operation on the same key, the key is marked: the
+// newer operation will be executed before the older one.
+//
+// Both sets are maintained from the datastore's operation log, not from the
+// entry names alone: the new queue instance numbers its entries from zero
+// again, so an entry written after the restart can carry the very name (same
+// number, same operation, same key) of an entry of the previous run that has
+// been read and deleted meanwhile. Told apart by name only, such an entry
+// passed for an old one and the reordering it witnesses went unlabelled
+// (replay C17-1-64433: the start of k1374 submitted after the restart was
+// stored as entry 2, the name of an already consumed old entry, in front of
+// the persisted stop of k1374 stored as entry 5).
+type c17BufScan struct {
+	old, fresh map[string]bool
+	logIdx     int
+}
+
+func (sc *c17BufScan) run(h *c17H, out map[int]bool) {
+	log := h.ds.Log()
+	for ; sc.logIdx < len(log); sc.logIdx++ {
+		r := log[sc.logIdx]
+		if r.Err != nil || !strings.HasPrefix(r.Key, "/buf/dsq-") {
 			continue
 		}
-		if old[k] {
-			olds = append(olds, k)
-		} else {
-			news = append(news, k)
+		switch r.Op {
+		case "put":
+			sc.fresh[r.Key] = true // (an old entry of the same name, if still stored, is overwritten: both)
+		case "delete":
+			delete(sc.old, r.Key)
+			delete(sc.fresh, r.Key)
 		}
 	}
 	keyOf := func(entry string) *c17Key {
@@ -757,8 +782,8 @@ func c17BufReorderScan(h *c17H, old map[string]bool, out map[int]bool) {
 		}
 		return h.byMh[string(item[1:])]
 	}
-	for _, n := range news {
-		for _, o := range olds {
+	for n := range sc.fresh {
+		for o := range sc.old {
 			if n < o {
 				if kn := keyOf(n); kn != nil && kn == keyOf(o) && !out[kn.idx] {
 					out[kn.idx] = true
